@@ -9,7 +9,9 @@ from .profiles import rng, KINDS
 
 
 def trace_vars(ids):
-    return ", ".join("cnt(%d), argx(%d)" % (i, i) for i in ids)
+    """nested tuples of at most 5 callbacks each (tuples with more than 12 elements have no PartialEq)"""
+    chunks = [ids[k:k + 5] for k in range(0, len(ids), 5)]
+    return ", ".join("(" + ", ".join("cnt(%d), argx(%d)" % (i, i) for i in ch) + ",)" for ch in chunks)
 
 
 WEIGHTS = {"?&!>": 40, "?>": 6, "?|>": 6, "^^>": 5, "<->": 3, "=>[]": 2, ">@>": 2}
